@@ -189,7 +189,10 @@ func (w *World) C10Server(r *hv.Rand) {
 		var bounds [][]int
 		sc, swb, shw, err := w.connect(sq, cfg, sids[len(sids)-1], w.NextAddr())
 		if err != nil {
-			panic(fmt.Sprint("scratch handshake failed: ", cfg.name, err))
+			// not even an undisturbed handshake works on this configuration: report it with the steps
+			sq.Emit("junk-burst/"+cfg.name+"/no-junk", cfg.name+" server: an honest handshake with the last configured certificate, no junk at all",
+				false, "C10:honest-handshake-fails", fmt.Sprint("an honest handshake failed: ", err), true)
+			continue
 		}
 		if cfg.hidden {
 			L := len(shw.Req) - 1628
@@ -226,12 +229,14 @@ func (w *World) C10Server(r *hv.Rand) {
 				ccfg := w.Cli.ClientConfig(w.P.Verify(PolStore, w.SrvName, nil, false))
 				vwb, err = NewWBVia(srv, del, ccfg, victim)
 				if err != nil {
-					panic(err)
+					q.Emit("junk-burst/"+cfg.name+"/"+state, cfg.name+" server: the victim's handshake before any junk", false, "C10:honest-handshake-fails", fmt.Sprint(err), true)
+					continue
 				}
 			case "established":
 				vc, _, _, err = w.connect(q, cfg, ids[0], victim)
 				if err != nil {
-					panic(fmt.Sprint("victim handshake failed: ", err))
+					q.Emit("junk-burst/"+cfg.name+"/"+state, cfg.name+" server: the victim's handshake before any junk", false, "C10:honest-handshake-fails", fmt.Sprint(err), true)
+					continue
 				}
 				vh = q.Accept()
 			}
